@@ -185,7 +185,12 @@ func (p *proxy) handleAgentRequest(w http.ResponseWriter, r *http.Request, backe
 }
 
 func (p *proxy) newID() string {
-	sum := sha256.Sum256([]byte(fmt.Sprintf("%d", p.randGenerator.Int63())))
+	// A *rand.Rand is not safe for concurrent use, and newID is called from
+	// every concurrently served frontend request.
+	p.Lock()
+	n := p.randGenerator.Int63()
+	p.Unlock()
+	sum := sha256.Sum256([]byte(fmt.Sprintf("%d", n)))
 	return fmt.Sprintf("%x", sum)
 }
 
